@@ -316,6 +316,26 @@ type step struct {
 	state string
 }
 
+// sameButStarted: cur equals prev except that enabled tasks which were not executing (an earlier start had failed)
+// may be executing now: a rejected template update rolls its tasks back by storing and restarting them, and an
+// enabled task executing its last accepted definition is what the property asks for. The opposite direction (a
+// rejected request stopping a task) is a difference.
+func sameButStarted(prev, cur string) bool {
+	if prev == cur {
+		return true
+	}
+	pl, cl := strings.Split(prev, "\n"), strings.Split(cur, "\n")
+	if len(pl) != len(cl) {
+		return false
+	}
+	for i := range pl {
+		if pl[i] != cl[i] && strings.Replace(pl[i], " status=enabled executing=false ", " status=enabled executing=true ", 1) != cl[i] {
+			return false
+		}
+	}
+	return true
+}
+
 type problem struct{ key, msg string }
 
 func hist(c Case) string {
@@ -492,7 +512,7 @@ func check(t *testing.T, c Case, r *rep.R, cache map[string][]step) []problem {
 			}
 		case st.code >= 400:
 			// O1: a rejected request leaves no trace (a task that was stored but failed to start is the documented exception)
-			if st.state != prev && !(st.code == 500 && startFailure(st.state)) {
+			if !sameButStarted(prev, st.state) && !(st.code == 500 && startFailure(st.state)) {
 				add("rejected-request-left-a-trace:"+cls, fmt.Sprintf("%s: the last request was answered %d, yet the API shows\n%s\nbefore it showed\n%s", h, st.code, st.state, prev))
 			}
 		default:
